@@ -20,6 +20,8 @@ theorem ph_name_byte : ∀ b : Byte, isPrintable b = true →
 theorem ph_residue_byte : ∀ b : Byte, (isNt b || isSpecial b) = true ∨ (isAa b || isSpecial b) = true →
     Phylip.identChar b = true ∧ Phylip.isWS b = false ∧ Phylip.isDigit b = false ∧ b ≠ 43 := by decide
 
+theorem ph_printable_ascii : ∀ b : Byte, isPrintable b = true → decide (b < 128) = true := by decide
+
 /-- what `reprPhylip` gives row by row -/
 theorem ph_repr_rows (strict : Bool) (rows : List XRow) (h : reprPhylip strict rows = true) :
     rows ≠ [] ∧ ∃ L, 1 ≤ L ∧ (∀ r ∈ rows, RowOk strict L r) ∧ distinct (rows.map (·.1)) = true := by
@@ -40,11 +42,14 @@ theorem ph_repr_rows (strict : Bool) (rows : List XRow) (h : reprPhylip strict r
     simp only [Bool.and_eq_true, Bool.not_eq_true', List.all_eq_true] at hn
     have hne : r.1 ≠ [] := by
       intro e; rw [e] at hn; simp at hn
-    refine ⟨⟨hne, fun b hb => ph_name_byte b (hn.2 b hb)⟩, ?_, ?_, hlen r hr⟩
+    refine ⟨⟨hne, fun b hb => ph_name_byte b (hn.2 b hb)⟩, ?_, ?_, ?_, hlen r hr⟩
     · intro hs
       cases hstrict with
       | inl h => rw [hs] at h; cases h
       | inr h => simpa using (List.all_eq_true.mp h) r hr
+    · simp only [allAscii, List.all_eq_true]
+      intro b hb
+      exact ph_printable_ascii b (hn.2 b hb)
     · intro b hb
       apply ph_residue_byte
       simp only [residuesOk, Bool.or_eq_true, List.all_eq_true] at hres
